@@ -131,7 +131,7 @@ Definition readd_starts_enabled_statement : Prop :=
 (** B4 *)
 Definition refusing_methods : list string :=
   ["AddRule"; "RemFact"; "RemRule"; "GetFact"; "GetRule"; "EnableRule"; "Clear";
-   "SetParents"; "GetParents"; "searchFacts"; "searchRules"].
+   "SetParents"; "GetParents"; "searchFacts"; "searchRules"; "StateSize"].
 
 Definition disabled_location_refuses_statement : Prop :=
   forall A l c now m (k : loc -> loc * outcome A),
